@@ -73,18 +73,21 @@ Theorem c15_waiter_quiescent : forall eqv v0 es a x w u ch,
 Proof. exact waiter_quiescent. Qed.
 Print Assumptions c15_waiter_quiescent.
 
-(* Errors have a source: Canceled only if the context was cancelled or the error channel closed, the error
-   channel's error only if one was sent, the validator's error only if the validator fails on a value held
-   during the call; the value returned with an error is the empty value. *)
+(* Errors have a source, and the error returned is THAT source's error: context.Canceled only if the context ended
+   with Err() = Canceled (a plain or with-cause context, cancelled) or the error channel was closed,
+   context.DeadlineExceeded only if the context is a deadline context that ended (the ctx.Done case returns
+   ctx.Err()), the error channel's error only if one was sent, the validator's error only if the validator fails
+   on a value held during the call; the value returned with an error is the empty value. *)
 Theorem c15_error_only_if_source_fired : forall eqv v0 es a x w v e,
   let s := run eqv v0 es in
   nth_error (acts s) a = Some x -> pc x = WRet w v e ->
   match e with
   | ENone => True
-  | ECanceled => v = 0%N /\ (ctxc x = true \/ eclosed x = true)
+  | ECanceled => v = 0%N /\ ((ctxc x = true /\ is_deadline (flav x) = false) \/ eclosed x = true)
   | EErrCh => v = 0%N /\ esent x = true
   | EValid => v = 0%N /\ exists y, In y (held s x) /\ cond eqv w y = VErr
   | ECb => v = 0%N /\ is_watch w = true
+  | EDeadline => v = 0%N /\ ctxc x = true /\ is_deadline (flav x) = true
   end.
 Proof. exact error_only_if_source_fired. Qed.
 Print Assumptions c15_error_only_if_source_fired.
@@ -128,16 +131,18 @@ Theorem c15_watcher_quiescent : forall eqv v0 es a x cur u ch,
 Proof. exact watcher_quiescent. Qed.
 Print Assumptions c15_watcher_quiescent.
 
-(* WatchChanges returns only an error: Canceled / the error channel's error only if that source fired (at any time
-   during the WatchChanges call), or the callback's own error; never nil, never a validator error.  Nobody but a
+(* WatchChanges returns only an error: the context's error (Canceled / DeadlineExceeded, as the context ended) / the
+   error channel's error only if that source fired (at any time during the WatchChanges call), or the callback's own
+   error; never nil, never a validator error.  Nobody but a
    watcher returns a callback error. *)
 Theorem c15_watcher_returns : forall eqv v0 es a x w v e,
   let s := run eqv v0 es in
   nth_error (acts s) a = Some x -> pc x = WRet w v e ->
   if is_watch w then v = 0%N /\ match e with
-                               | ECanceled => ctxc x = true \/ eclosed x = true
+                               | ECanceled => (ctxc x = true /\ is_deadline (flav x) = false) \/ eclosed x = true
                                | EErrCh => esent x = true
                                | ECb => True
+                               | EDeadline => ctxc x = true /\ is_deadline (flav x) = true
                                | ENone | EValid => False
                                end
   else e <> ECb.
@@ -177,7 +182,7 @@ Proof. vm_compute. repeat split; reflexivity. Qed.
 (* a write lands between a waiter's sample and its select: the waiter is not lost, it samples again and returns;
    another waiter stays blocked at quiescence, its condition being false *)
 Example c15_example_waiters :
-  let s := run noeq 0 [CallWait WValue false; CallWait (WChange 5) false; Sect 0; Call (OSet 5); Sect 2; Eval 0; Wake 0;
+  let s := run noeq 0 [CallWait WValue false CPlain; CallWait (WChange 5) false CPlain; Sect 0; Call (OSet 5); Sect 2; Eval 0; Wake 0;
                        Sect 0; Eval 0; Sect 1; Eval 1] in
   map pc (acts s) = [WRet WValue 5 ENone; WBlocked (WChange 5) 5 1; PDone (OSet 5) 0] /\ quiescent s = true.
 Proof. vm_compute. split; reflexivity. Qed.
@@ -185,7 +190,7 @@ Proof. vm_compute. split; reflexivity. Qed.
 (* equality mod 2: SetValue 3 on content 1 is not stored and wakes nobody; SwapValue returns the callback's result
    although it is not stored *)
 Example c15_example_custom_equality :
-  let s := run (eq_of_code 1) 1 [CallWait (WChange 1) true; Sect 0; Eval 0; Call (OSet 3); Sect 1; Wake 0;
+  let s := run (eq_of_code 1) 1 [CallWait (WChange 1) true CPlain; Sect 0; Eval 0; Call (OSet 3); Sect 1; Wake 0;
                                  Call (OSwap (FConst 5)); Sect 2; ErrClose 0; ErrWake 0] in
   val s = 1%N /\ map pc (acts s) = [WRet (WChange 1) 0 ECanceled; PDone (OSet 3) 0; PDone (OSwap (FConst 5)) 5].
 Proof. vm_compute. split; reflexivity. Qed.
@@ -193,7 +198,7 @@ Proof. vm_compute. split; reflexivity. Qed.
 (* WatchChanges(initial = 0) on a cell holding 0: blocks; SetValue 5 wakes it, the callback is entered with 5; it
    returns nil, the next round (current = 5) blocks at quiescence; SetValue 6: callback with 6, which fails *)
 Example c15_example_watch :
-  let s1 := run noeq 0 [CallWait (WWatch 0) false; Sect 0; Eval 0; Call (OSet 5); Sect 1; Wake 0; Sect 0; Eval 0] in
+  let s1 := run noeq 0 [CallWait (WWatch 0) false CPlain; Sect 0; Eval 0; Call (OSet 5); Sect 1; Wake 0; Sect 0; Eval 0] in
   let s2 := fold_left (step noeq) [CbRet 0 false; Sect 0; Eval 0] s1 in
   let s3 := fold_left (step noeq) [Call (OSet 6); Sect 2; Wake 0; Sect 0; Eval 0; CbRet 0 true] s2 in
   map pc (acts s1) = [WCb (WWatch 0) 5; PDone (OSet 5) 0] /\
@@ -205,7 +210,7 @@ Proof. vm_compute. repeat split; reflexivity. Qed.
 (* initial value unequal to the cell: the callback is entered at once with the content; equality mod 2: a write of
    an "equal" value is not stored and not delivered *)
 Example c15_example_watch_custom_equality :
-  let s := run (eq_of_code 1) 3 [CallWait (WWatch 0) true; Sect 0; Eval 0; CbRet 0 false; Call (OSet 5); Sect 1; Sect 0; Eval 0] in
+  let s := run (eq_of_code 1) 3 [CallWait (WWatch 0) true CPlain; Sect 0; Eval 0; CbRet 0 false; Call (OSet 5); Sect 1; Sect 0; Eval 0] in
   val s = 3%N /\ map pc (acts s) = [WBlocked (WWatch 3) 3 0; PDone (OSet 5) 0].
 Proof. vm_compute. split; reflexivity. Qed.
 
@@ -253,4 +258,67 @@ Example c15_example_monitor_rejects_blocked_at_quiescence :
     (run_check_ccontainer [0; 0]%N
        [[4; 0; 0; 0; 0]; [5; 0]; [5; 0]; [2; 5]; [5; 1]]%N
        [[1]; [7]; [2]; [2; 1]; [2; 3]]%N) = true.
+Proof. vm_compute. reflexivity. Qed.
+
+(* ---- context flavours: the ctx.Done case returns ctx.Err() ---- *)
+
+(* a blocked waiter whose deadline-like context ends returns DeadlineExceeded; with a deadline-like context and a
+   closed error channel it returns the literal Canceled; cancelled with a cause it returns Canceled (not the cause) *)
+Example c15_example_ctx_flavours :
+  let s := run noeq 0 [CallWait WValue false CDeadline; Sect 0; Eval 0; CancelCtx 0; CancelWake 0;
+                       CallWait WValue true CDeadline; Sect 1; Eval 1; ErrClose 1; ErrWake 1;
+                       CallWait WValue false CCause; Sect 2; Eval 2; CancelCtx 2; CancelWake 2] in
+  map pc (acts s) = [WRet WValue 0 EDeadline; WRet WValue 0 ECanceled; WRet WValue 0 ECanceled].
+Proof. vm_compute. reflexivity. Qed.
+
+(* the same through the codec (status 13 = DeadlineExceeded, 4 = Canceled), plus a WaitValueEmpty call made with a
+   deadline-like context that has ALREADY ENDED on an empty cell: it still returns (the value satisfies) *)
+Example c15_example_ctx_flavours_codec :
+  run_obs hstep (hinit [0; 0]%N)
+    [[4; 0; 0; 0; 2]; [4; 0; 0; 0; 5]; [4; 0; 0; 0; 3]; [5; 0]; [5; 0]; [5; 1]; [5; 1]; [5; 2]; [5; 2]; [6; 0]; [6; 1]; [7; 2; 2];
+     [4; 2; 0; 0; 8]; [5; 3]]%N =
+    [[1]; [1; 1]; [1; 1; 1]; [7; 1; 1]; [2; 1; 1]; [2; 7; 1]; [2; 2; 1]; [2; 2; 7]; [2; 2; 2]; [13; 2; 2]; [13; 4; 2]; [13; 4; 4];
+     [13; 4; 4; 1]; [13; 4; 4; 3]]%N.
+Proof. vm_compute. reflexivity. Qed.
+
+(* the monitors reject: context.Canceled from a waiter whose deadline-like context ended (clause 6: Canceled is not
+   that context's error, and its error channel was not closed), DeadlineExceeded from a waiter with a plain context
+   (clause 9), the cancellation cause from a waiter whose context has no cause (clause 10) *)
+Example c15_example_monitor_rejects_canceled_for_deadline_ctx :
+  existsb (fun i => match i with PropFalse 15 6 3 => true | _ => false end)
+    (run_check_ccontainer [0; 0]%N [[4; 0; 0; 0; 2]; [5; 0]; [5; 0]; [6; 0]]%N [[1]; [7]; [2]; [4]]%N) = true.
+Proof. vm_compute. reflexivity. Qed.
+Example c15_example_monitor_rejects_canceled_for_ended_deadline_ctx_at_call :
+  existsb (fun i => match i with PropFalse 15 6 0 => true | _ => false end)
+    (run_check_ccontainer [0; 0]%N [[4; 2; 0; 0; 9]]%N [[4]]%N) = true.
+Proof. vm_compute. reflexivity. Qed.
+Example c15_example_monitor_rejects_deadline_for_plain_ctx :
+  existsb (fun i => match i with PropFalse 15 9 3 => true | _ => false end)
+    (run_check_ccontainer [0; 0]%N [[4; 0; 0; 0; 0]; [5; 0]; [5; 0]; [6; 0]]%N [[1]; [7]; [2]; [13]]%N) = true.
+Proof. vm_compute. reflexivity. Qed.
+Example c15_example_monitor_rejects_cause_for_plain_ctx :
+  existsb (fun i => match i with PropFalse 15 10 3 => true | _ => false end)
+    (run_check_ccontainer [0; 0]%N [[4; 0; 0; 0; 0]; [5; 0]; [5; 0]; [6; 0]]%N [[1]; [7]; [2]; [14]]%N) = true.
+Proof. vm_compute. reflexivity. Qed.
+
+(* ---- comparators that are not reflexive (eqcode 5 never equal, 6 a < b), NewCContainerVT (eqcode 7) ----
+   compare a b = (a == b) || equal a b: identical values are equal whatever the comparator says.  Content 3:
+   WaitValueChange(3) blocks; SetValue 3 is not stored and wakes nobody; SwapValue(identity) returns 3; SetValue 0
+   is stored and the waiter returns 0. *)
+Example c15_example_nonreflexive_comparator :
+  forall c, In c [5; 6; 7]%N ->
+  run_obs hstep (hinit [c; 3]%N)
+    [[4; 1; 3; 0; 0]; [2; 3]; [5; 1]; [5; 0]; [5; 0]; [3; 3; 0]; [5; 2]; [2; 0]; [5; 3]; [5; 0]; [5; 0]]%N =
+    [[1]; [1; 1]; [1; 3]; [7; 3]; [2; 3]; [2; 3; 1]; [2; 3; 51]; [2; 3; 51; 1]; [1; 3; 51; 3]; [7; 3; 51; 3]; [3; 3; 51; 3]]%N.
+Proof. intros c [<-|[<-|[<-|[]]]]; vm_compute; reflexivity. Qed.
+
+(* with a never-equal comparator the monitors reject a WaitValueChange(3) that returns 3 (clause 4), and a
+   WaitValueEmpty left blocked at quiescence on an empty cell (clause 5) *)
+Example c15_example_monitor_rejects_identical_as_changed :
+  existsb (fun i => match i with PropFalse 15 4 4 => true | _ => false end)
+    (run_check_ccontainer [5; 3]%N [[4; 1; 3; 0; 0]; [2; 3]; [5; 1]; [5; 0]; [5; 0]]%N [[1]; [1; 1]; [1; 3]; [7; 3]; [51; 3]]%N) = true.
+Proof. vm_compute. reflexivity. Qed.
+Example c15_example_monitor_rejects_empty_waiter_blocked_on_empty_cell :
+  existsb (fun i => match i with PropFalse 15 5 2 => true | _ => false end)
+    (run_check_ccontainer [7; 0]%N [[4; 2; 0; 0; 0]; [5; 0]; [5; 0]]%N [[1]; [7]; [2]]%N) = true.
 Proof. vm_compute. reflexivity. Qed.
